@@ -75,13 +75,13 @@ Lemma dense_real_vector_reader_safe d v :
 Proof. apply mapR_Forall_post. intros a b. apply real_reader_safe. Qed.
 Lemma dense_real_matrix_reader_safe d m b :
   read_dm (real F) (sdoc T) (read_real F T zero parseJ) b d = Ok m ->
-  Forall (wf_real F) (dm_vals m) /\ (dmd_rows d * dmd_cols d < 2^63 -> wf_dm m).
+  Forall (wf_real F) (dm_vals m) /\ wf_dm m.
 Proof.
   intros H. split.
   - unfold read_dm in H. apply bind_ok in H as (vals & Hv & H).
     destruct (_ || _); [discriminate|]. inversion H; subst; simpl.
     eapply mapR_Forall_post; [|eassumption]. intros a b0. apply real_reader_safe.
-  - apply read_dm_safe in H as (_ & _ & _ & _ & _ & _ & Hw). apply Hw.
+  - apply read_dm_safe in H as (Hw & _). exact Hw.
 Qed.
 
 End Inst.
